@@ -88,16 +88,30 @@ def processCurrent (i : Inst) (market : Nat) (ref : List Char) : Inst × Resolve
 def addStrategy (i : Inst) (hash : List Char) : Inst :=
   { i with strategies := i.strategies ++ [{ idx := i.strategies.length, hash := hash }] }
 
+/-- `Blotter.process_cleared_orders` for one cleared order (the live cleared-orders path): the order of that market's blotter
+    whose id is `customer_order_ref[STRATEGY_NAME_HASH_LENGTH + 1:]` - the blotter module's own constant - gets the cleared
+    order attached; nothing else changes -/
+def processCleared (i : Inst) (market : Nat) (ref : List Char) : Option KnownOrder :=
+  getOrder i market (ref.drop (Gen.blotterHashLength + 1))
+
 inductive Op where
   | add (hash : List Char)
   | update (market : Nat) (ref : List Char)
+  | cleared (market : Nat) (ref : List Char)
 
-def step (i : Inst) : Op → Inst × Option Resolved
+/-- what an operation answers: how an update was resolved, or which order a cleared order was attached to -/
+inductive Answer where
+  | resolved (r : Resolved)
+  | attached (o : Option KnownOrder)
+  deriving Repr, DecidableEq
+
+def step (i : Inst) : Op → Inst × Option Answer
   | .add h => (addStrategy i h, none)
-  | .update m r => let (i', x) := processCurrent i m r; (i', some x)
+  | .update m r => let (i', x) := processCurrent i m r; (i', some (.resolved x))
+  | .cleared m r => (i, some (.attached (processCleared i m r)))
 
-def run (ops : List Op) : List Resolved :=
-  (ops.foldl (fun (acc : Inst × List Resolved) op =>
+def run (ops : List Op) : List Answer :=
+  (ops.foldl (fun (acc : Inst × List Answer) op =>
     let (i', r) := step acc.1 op
     (i', match r with | some x => acc.2 ++ [x] | none => acc.2)) ({}, [])).2
 
